@@ -193,6 +193,52 @@ def formatCellInst (close : Rat → Rat → Bool) (flags : Flags) (c : Cell) (k 
 def formatCell (close : Rat → Rat → Bool) (flags : Flags) (c : Cell) : MItem :=
   .cell c.number (K.all.flatMap (formatCellInst close flags c))
 
+/-! ## the cell's parameters tree: which modifier classes have a node in it
+
+`Cell.format_for_mcnp_input` prints the cell-level modifiers only by walking `cell._tree["parameters"]`: a class
+without a node there is never printed on the card, whatever its flag and its value.  A card may carry any OTHER
+parameters (NONU, UNC:n, TMP1, …) next to the five classes; the keys are strings (lists of characters). -/
+
+/-- one entry of `cell._tree["parameters"].nodes` as parsed: the key (`syntax_node.py: ParametersNode.append`:
+    prefix + number + particles, lower case) and the classifier's prefix (lower case) -/
+structure Param where
+  key : List Char
+  pfx : List Char
+  deriving Repr, DecidableEq
+
+/-- Python `pat in s` on strings -/
+def hasInfix (pat : List Char) : List Char → Bool
+  | [] => pat.isPrefixOf []
+  | c :: t => pat.isPrefixOf (c :: t) || hasInfix pat t
+
+/-- `_class_prefix()` as characters (`K.pfx`, see `K.pfxC_eq`) -/
+def K.pfxC : K → List Char
+  | .imp => ['i', 'm', 'p'] | .vol => ['v', 'o', 'l'] | .u => ['u'] | .lat => ['l', 'a', 't'] | .fill => ['f', 'i', 'l', 'l']
+
+/-- `cell.py: Cell._parse_keyword_modifiers`, first loop: `found_class_prefixes` (the classes given on the card) -/
+def foundClassPrefixes (ps : List Param) : List K :=
+  K.all.filter (fun k => ps.any (fun p => p.pfx == k.pfxC))
+
+/-- `cell.py: Cell._parse_keyword_modifiers`, second loop ("Add defaults to tree"): the classes whose blank tree is
+    appended to the parameters: every class not found on the card; for IMP only if no key contains `imp` -/
+def defaultsAppended (ps : List Param) : List K :=
+  K.all.filter (fun k =>
+    !(foundClassPrefixes ps).contains k &&
+      (if k == K.imp then !(ps.any (fun p => hasInfix K.imp.pfxC p.key)) else true))
+
+/-- the modifier classes with a node in the parameters tree after `_parse_keyword_modifiers` -/
+def slots (ps : List Param) : List K :=
+  K.all.filter (fun k => (foundClassPrefixes ps).contains k || (defaultsAppended ps).contains k)
+
+/-- `cell.py: Cell.format_for_mcnp_input`, the parameter loop as it is: only the classes with a node in the tree are
+    reached (the order on the card is the tree's; cards are compared as sets of parameters) -/
+def formatCellTree (close : Rat → Rat → Bool) (flags : Flags) (c : Cell) (ps : List Param) : MItem :=
+  .cell c.number ((slots ps).flatMap (formatCellInst close flags c))
+
+/-- every key that contains `imp` belongs to an IMP parameter (true of every key over the lexer's keyword table) -/
+def impKeysAreImp (ps : List Param) : Bool :=
+  ps.all (fun p => !hasInfix K.imp.pfxC p.key || p.pfx == K.imp.pfxC)
+
 /-! ## data-level instances -/
 
 /-- `_tree_value` of the cell-level instance, as collected by `cell_modifier.py: _collect_new_values`
